@@ -1,1 +1,137 @@
-//! Harness contracts for C08.
+//! Harness contracts for C08 (also used by C09 as the external target).
+//!
+//! `TimelockLib` forwards 1:1 to the `stellar_governance::timelock` library functions
+//! (no access control — that is C09's subject) plus one read-only bulk `dump` that calls
+//! the library's own getters.  `Target` counts invocations per (function, argument) and
+//! has an entry point that can be scripted to fail.
+
+pub mod timelock_lib {
+    use soroban_sdk::{contract, contractimpl, BytesN, Env, Val, Vec};
+    use stellar_governance::timelock::{self as tl, Operation, OperationState};
+
+    #[contract]
+    pub struct TimelockLib;
+
+    #[contractimpl]
+    impl TimelockLib {
+        pub fn __constructor(e: &Env, min_delay: u32) {
+            tl::set_min_delay(e, min_delay);
+        }
+        pub fn schedule_operation(e: &Env, operation: Operation, delay: u32) -> BytesN<32> {
+            tl::schedule_operation(e, &operation, delay)
+        }
+        pub fn execute_operation(e: &Env, operation: Operation) -> Val {
+            tl::execute_operation(e, &operation)
+        }
+        pub fn set_execute_operation(e: &Env, operation: Operation) {
+            tl::set_execute_operation(e, &operation)
+        }
+        pub fn cancel_operation(e: &Env, operation_id: BytesN<32>) {
+            tl::cancel_operation(e, &operation_id)
+        }
+        pub fn set_min_delay(e: &Env, min_delay: u32) {
+            tl::set_min_delay(e, min_delay)
+        }
+        pub fn get_min_delay(e: &Env) -> u32 {
+            tl::get_min_delay(e)
+        }
+        pub fn get_operation_ledger(e: &Env, operation_id: BytesN<32>) -> u32 {
+            tl::get_operation_ledger(e, &operation_id)
+        }
+        pub fn get_operation_state(e: &Env, operation_id: BytesN<32>) -> OperationState {
+            tl::get_operation_state(e, &operation_id)
+        }
+        pub fn operation_exists(e: &Env, operation_id: BytesN<32>) -> bool {
+            tl::operation_exists(e, &operation_id)
+        }
+        pub fn is_operation_pending(e: &Env, operation_id: BytesN<32>) -> bool {
+            tl::is_operation_pending(e, &operation_id)
+        }
+        pub fn is_operation_ready(e: &Env, operation_id: BytesN<32>) -> bool {
+            tl::is_operation_ready(e, &operation_id)
+        }
+        pub fn is_operation_done(e: &Env, operation_id: BytesN<32>) -> bool {
+            tl::is_operation_done(e, &operation_id)
+        }
+        pub fn hash_operation(e: &Env, operation: Operation) -> BytesN<32> {
+            tl::hash_operation(e, &operation)
+        }
+        /// Bulk read through the library getters: per id
+        /// `[ledger, state, exists, pending, ready, done]`, then a last row `[min_delay]`.
+        pub fn dump(e: &Env, ids: Vec<BytesN<32>>) -> Vec<Vec<u32>> {
+            let mut out = Vec::new(e);
+            for id in ids.iter() {
+                let mut row = Vec::new(e);
+                row.push_back(tl::get_operation_ledger(e, &id));
+                row.push_back(tl::get_operation_state(e, &id) as u32);
+                row.push_back(tl::operation_exists(e, &id) as u32);
+                row.push_back(tl::is_operation_pending(e, &id) as u32);
+                row.push_back(tl::is_operation_ready(e, &id) as u32);
+                row.push_back(tl::is_operation_done(e, &id) as u32);
+                out.push_back(row);
+            }
+            let mut last = Vec::new(e);
+            last.push_back(tl::get_min_delay(e));
+            out.push_back(last);
+            out
+        }
+    }
+}
+
+pub mod target {
+    use soroban_sdk::{contract, contractimpl, contracttype, Env, Vec};
+
+    #[contracttype]
+    #[derive(Clone)]
+    pub enum K {
+        /// invocation count of (function id, argument)
+        Count(u32, u32),
+        Total,
+        Fail,
+    }
+
+    #[contract]
+    pub struct Target;
+
+    fn rec(e: &Env, f: u32, x: u32) -> u32 {
+        let k = K::Count(f, x);
+        let c: u32 = e.storage().instance().get(&k).unwrap_or(0) + 1;
+        e.storage().instance().set(&k, &c);
+        let t: u32 = e.storage().instance().get(&K::Total).unwrap_or(0) + 1;
+        e.storage().instance().set(&K::Total, &t);
+        c
+    }
+
+    #[contractimpl]
+    impl Target {
+        /// function id 0
+        pub fn bump(e: &Env, x: u32) -> u32 {
+            rec(e, 0, x)
+        }
+        /// function id 1: records first, THEN fails when scripted to (so a missing
+        /// rollback would be visible in the counters)
+        pub fn flaky(e: &Env, x: u32) -> u32 {
+            let c = rec(e, 1, x);
+            if e.storage().instance().get::<_, bool>(&K::Fail).unwrap_or(false) {
+                panic!("scripted failure");
+            }
+            c
+        }
+        /// function id 2
+        pub fn pair(e: &Env, x: u32, y: u32) -> u32 {
+            rec(e, 2, x.wrapping_mul(1000).wrapping_add(y))
+        }
+        pub fn set_fail(e: &Env, on: bool) {
+            e.storage().instance().set(&K::Fail, &on);
+        }
+        /// counts for the given (function id, argument) keys, then the total
+        pub fn report(e: &Env, keys: Vec<(u32, u32)>) -> Vec<u32> {
+            let mut out = Vec::new(e);
+            for (f, x) in keys.iter() {
+                out.push_back(e.storage().instance().get(&K::Count(f, x)).unwrap_or(0));
+            }
+            out.push_back(e.storage().instance().get(&K::Total).unwrap_or(0));
+            out
+        }
+    }
+}
